@@ -9,7 +9,9 @@
    Conventions.  A live range is (start, end, size, alignment, name); times are inclusive.
    `lr_name` is the rank of LiveRange.name in string order (only used by LiveRange.__lt__ as the last
    tie-break of Python's sorted()).  Python exceptions / non-termination are error results `Err code`:
-     1 ValueError  random.randint(0, len(turn_list) - 2) with a one-element turn_list (defect P8)
+     1 ValueError  random.randint(lo, hi) with hi < lo (before the repair of defect P8 this happened for
+                   random.randint(0, len(turn_list) - 2) with a one-element turn_list; the bound is now
+                   max(len(turn_list) - 2, 0) and the code is proved unreachable)
      2 IndexError  a list access outside the list (also used for a negative index, which Python would wrap)
      3 the predecessor walk of add_predecessor_turns does not end (fuel = number of ranges)
      4 allocate_lr's while loop does not end within |neighbours|+1 rounds   (proved unreachable)
@@ -427,6 +429,13 @@ Section Stream.
     | Ok (k, s') => match zget l k with None => Err 2 | Some x => Ok (x, s') end
     end.
 
+  (* turn_list[random.randint(0, max(len(turn_list) - 2, 0))] *)
+  Definition pick2 (l : list Z) (s : S * Z) : res (Z * (S * Z)) :=
+    match randint 0 (Z.max (zlen l - 2) 0) s with
+    | Err c => Err c
+    | Ok (k, s') => match zget l k with None => Err 2 | Some x => Ok (x, s') end
+    end.
+
   (* HillClimbAllocator.attempt_bottleneck_fix: returns the reordered indices and the stream *)
   Definition attempt_bottleneck_fix (lrs : list lr) (nbrs : list (list Z)) (st : list hinfo) (idx : list Z)
              (stuck : Z) (s : S * Z) : res (list Z * (S * Z)) :=
@@ -448,7 +457,7 @@ Section Stream.
               match (if (r0 <? 30) && negb (zlen nn =? 0) then pick nn 1 s0 else pick tl 1 s0) with
               | Err c => Err c
               | Ok (ix1, s1) =>
-                match pick tl 2 s1 with
+                match pick2 tl s1 with
                 | Err c => Err c
                 | Ok (ix2a, s2) =>
                   let ix2 := if ix1 =? ix2a then last tl 0 else ix2a in
